@@ -34,6 +34,7 @@ HOSTS = {1: "o1.test", 2: "o2.test"}
 ALL_MODES = tuple(MODE_SPEC)
 
 _ENV = None
+_SCRATCH: Path | None = None
 
 
 def _env():
@@ -41,7 +42,9 @@ def _env():
     if _ENV is None or _ENV[0] != os.getpid():
         from vf import proxysim
 
-        d = Path(tempfile.mkdtemp(prefix="c24-env-", dir="/verif/.scratch"))
+        base = _SCRATCH or Path("/verif/.scratch")  # ctx.scratch (removed at exit); workers are forked after setup()
+        base.mkdir(parents=True, exist_ok=True)
+        d = Path(tempfile.mkdtemp(prefix="c24-env-", dir=str(base)))
         _ENV = (os.getpid(), proxysim.SimEnv(d), d)
     return _ENV[1]
 
@@ -257,6 +260,10 @@ class Check(core.PropertyCheck):
         "synchronously in chain order; every connection attempt succeeds and every request is answered 200",
         "HTTP/1 only (clients offer ALPN http/1.1); QUIC/HTTP3, DNS, WireGuard/TUN/local modes are not exercised",
     )
+
+    def setup(self, ctx):
+        global _SCRATCH
+        _SCRATCH = ctx.scratch
 
     def mon_constants(self, tier):
         return {}
